@@ -5,7 +5,7 @@ BHi <- BHiA
 MaxT = 10
 MaxReq = 3
 MaxLookups = 5
-MaxDur = 1
+MaxDur = 4
 Mutant = 3
 INIT Init
 NEXT Next
